@@ -217,7 +217,7 @@ SWEEP = _sweeps()
 
 
 def plan(tier):
-    extra = 150000 if tier == "quick" else 3000000
+    extra = 120000 if tier == "quick" else 3000000
     return {"cases": len(SWEEP) + extra, "shards": 8 if tier == "quick" else 14,
             "min_nontrivial": 2000, "timeout": 600 if tier == "quick" else 2400,
             "require": {
@@ -501,9 +501,6 @@ def run_diagram(ctx, case):
         def stub(inputs):
             ctx.count("handler_invocations")
             run = state["run"]
-            if state["rejected_invoked"] is not None:
-                ctx.violation("ran-on-after-rejected-output", "handler %s invoked after %s returned an output contradicting its port" % (
-                    mname, state["rejected_invoked"]), dict(desc, module=mname))
             if mname in state["seen"]:
                 ctx.violation("handler-invoked-twice", "handler of %s invoked a second time in one execute()" % mname,
                               dict(desc, module=mname, calls=list(state["calls"])))
